@@ -48,6 +48,7 @@ LOWER = "acdefghiklmnpqrstvwybjouxz"
 PUNCT = "-.,;:_#/\\(?!@$%&+=|~'\")[]{}<^`"
 CONTROL = "\x00\x01\x02\x07\x08\x1b\x7f"
 INNER_WS = "\t\t\xa0\u3000\u2003"
+COMMENTISH = "##;!%"          # characters that open a comment in other file formats
 PATH = "/sim/seq.fasta"
 
 
@@ -196,7 +197,7 @@ def corrupt(rnd, text, meta):
         pre = text[:i].encode("utf-8")
         post = text[i:].encode("utf-8")
         return pre + bad + post
-    pool = rnd.choice((FOREIGN_LETTERS, LOWER, PUNCT, CONTROL, "éßα中", INNER_WS))
+    pool = rnd.choice((FOREIGN_LETTERS, LOWER, PUNCT, CONTROL, "éßα中", INNER_WS, COMMENTISH))
     ch = rnd.choice(pool)
     meta["foreign_class"] = {FOREIGN_LETTERS: "letter", LOWER: "lower", PUNCT: "punct", CONTROL: "control", INNER_WS: "inner_ws"}.get(pool, "unicode")
     if pool == INNER_WS:
@@ -294,8 +295,9 @@ def corpus():
     def mk(name, text, **kw):
         st = {"file": text.encode("utf-8").decode("latin-1"), "torn_at": None,
               "fault": {"chunks": None, "eio_at": None, "open": None}, "api": "parser", "meta": {"corpus": name}, "path": PATH}
+        env = kw.pop("env", None)
         st.update(kw)
-        out.append((name, {"property": ID, "run_seed": 140 + len(out), "steps": [st]}))
+        out.append((name, {"property": ID, "run_seed": 140 + len(out), "steps": [st], "env": env}))
     body = "MEEPQSDPSV EPPLSQETFS DLWKLLPENN\nVLSPLPSQAM DDLMLSPDDI\n"
     mk("fasta_grouped_numbered", ">sp|P04637\n        1 MEEPQSDPSV EPPLSQETFS 20\n       21 DLWKLLPENN 30\n\n")
     mk("plain_crlf_star", "ACDEFGHIKL\r\nMNPQRSTVWY*\r\n", fault={"chunks": [1], "eio_at": None, "open": None})
@@ -311,6 +313,8 @@ def corpus():
     mk("nonfinal_star", "ACD*EF\n")
     mk("foreign_lower", "ACDEf\n")
     mk("foreign_X", ">h\nACDXEF\n")
+    mk("hash_comment_all_submodules_imported", ">h\nACDEF # the rest\nGHIK\n", env="all_submodules_imported")
+    mk("hash_inside_a_line", "ACD#EF\n")
     mk("tab_inside_a_line", ">h\nACD\tEF\nGHIK\n")
     mk("nbsp_inside_a_line", "ACDEF\nGH\xa0IK\n")
     mk("eio_mid_file", body * 8, fault={"chunks": [16], "eio_at": 9, "open": None})
